@@ -635,7 +635,25 @@ class Interp:
             if isinstance(s, ast.FunctionDef):
                 st.env[s.name] = LambdaV(_as_lambda(s), tuple(st.env.items()), fr.fi.module, fr.fi.cls)
             yield "fall", NONE, st
-        elif isinstance(s, (ast.Import, ast.ImportFrom, ast.Global, ast.Nonlocal, ast.Delete)):
+        elif isinstance(s, ast.Delete):
+            for t in s.targets:
+                if isinstance(t, ast.Subscript) and isinstance(t.value, ast.Name):
+                    cur = st.env.get(t.value.id)
+                    done = False
+                    if isinstance(cur, TupleV):
+                        for iv, s2 in self.ev_index(t.slice, st, fr):
+                            if isinstance(iv, IntV) and (i := s2.norm(iv.d).as_int()) is not None and -len(cur.items) <= i < len(cur.items):
+                                items = list(cur.items)
+                                del items[i]
+                                st.env[t.value.id] = TupleV(tuple(items), cur.kind)
+                                done = True
+                            break
+                    if not done:
+                        st.env[t.value.id] = self.unk("del of an unresolved element")
+                elif isinstance(t, ast.Name):
+                    st.env.pop(t.id, None)
+            yield "fall", NONE, st
+        elif isinstance(s, (ast.Import, ast.ImportFrom, ast.Global, ast.Nonlocal)):
             yield "fall", NONE, st
         elif isinstance(s, ast.Match):
             for n in ast.walk(s):
@@ -1316,6 +1334,9 @@ class Interp:
             return
         if isinstance(fv, ParamV):
             h = st.heap.get(fv.pid, {})
+            if isinstance(h.get("tensor"), TensorV):
+                yield h["tensor"], st
+                return
             shp = self.param_shape(fv.pid, st)
             folds = h.get("folds")
             if isinstance(shp, TupleV) and all(isinstance(x, IntV) for x in shp.items) and isinstance(folds, IntV):
@@ -1493,7 +1514,11 @@ def _as_lambda(fn: ast.FunctionDef) -> ast.Lambda:
 
 
 # library classes modelled natively (their graph code is irrelevant to shapes)
-MODELLED_CLASSES = {"cirkit.symbolic.parameters.Parameter", "cirkit.symbolic.circuit.CircuitBlock"}
+MODELLED_CLASSES = {
+    "cirkit.symbolic.parameters.Parameter",
+    "cirkit.symbolic.circuit.CircuitBlock",
+    "cirkit.backend.torch.parameters.parameter.TorchParameter",
+}
 
 PY_BUILTINS = {
     "len", "range", "tuple", "list", "zip", "enumerate", "reversed", "sum", "max", "min", "all", "any", "isinstance",
